@@ -99,7 +99,8 @@ static std::string run(const std::vector<std::string>& w){
         }
         else if(nn >= 4) faces = {0, 2, 1, 0, 1, 3, 1, 2, 3, 2, 0, 3};
         else if(nn == 3) faces = {0, 1, 2};
-        cell_ptr c = std::make_shared<epithelial_cell>(pos, faces, (unsigned) ci, ct);
+        // the cell id (unique, never reused, drifts away from the position after divisions / removals) is deliberately NOT the position
+        cell_ptr c = std::make_shared<epithelial_cell>(pos, faces, (unsigned) (1000 + 37 * ci), ct);
         c->set_local_id((unsigned) ci);            // the solver's invariant: local id = position in cell_lst
         if(mode == "s") c->initialize_cell_properties(true);   // face owners, normals, areas (the grid needs the owners)
         if((long) cell_tester::nb_slots(c) != nn) return "bad-op";
